@@ -30,12 +30,14 @@ def sh(cmd: str, cwd: str | None = None, timeout: int = 600) -> tuple[int, str]:
 
 
 def main() -> int:
-    src = Path(sys.argv[1])
+    src = Path(sys.argv[1]).resolve()
     prop = sys.argv[2]
     name = sys.argv[3]
     patch = src / "patch.diff"
     demo = src / "demo.py"
     notes = (src / "notes.txt").read_text() if (src / "notes.txt").exists() else ""
+    if not notes and (src / "meta.json").exists():
+        notes = json.loads((src / "meta.json").read_text()).get("notes", "")
     meta: dict = {"property": prop, "name": name, "notes": notes.strip()}
     wt = Path(tempfile.mkdtemp(prefix="verif-seed-")) / "wt"
     try:
@@ -91,8 +93,9 @@ def main() -> int:
     if ok:
         dst = VERIF / "seeded" / name
         dst.mkdir(parents=True, exist_ok=True)
-        shutil.copy(patch, dst / "patch.diff")
-        shutil.copy(demo, dst / "demo.py")
+        if patch.resolve() != (dst / "patch.diff").resolve():
+            shutil.copy(patch, dst / "patch.diff")
+            shutil.copy(demo, dst / "demo.py")
         (dst / "meta.json").write_text(json.dumps(meta, indent=1) + "\n")
     print(json.dumps({k: meta[k] for k in ("confirmed", "suite_with_patch", "demo_clean", "demo_patched", "caught_by_own_property", "caught_by_any")}, indent=1))
     for pid, v in detected.items():
